@@ -51,7 +51,7 @@ Section Algebra.
   Lemma create_wf h : wf_hdr (create (f_parse F) h) -> True. Proof. trivial. Qed.
 
   Theorem add_val_spec self v right :
-    wf_hdr self -> ok (f_text F v) ->
+    wf_hdr self -> (forall po, f_parse F (f_text F v) = Some po -> ok (f_text F v)) ->
     exists h, add_val F self v right = Ret h /\ wf_hdr h /\
               elements h = if right then contrib v ++ elements self else elements self ++ contrib v.
   Proof.
@@ -63,7 +63,7 @@ Section Algebra.
         assert (falsy v = true) as -> by (destruct (f_none_only F); [apply none_falsy|]; exact Etest).
         destruct right; reflexivity.
       + destruct (f_parse F (f_text F v)) as [p|] eqn:Ep.
-        * exists (Valid (f_text F v) p). split; [reflexivity|]. split; [split; assumption|]. cbn [elements].
+        * exists (Valid (f_text F v) p). split; [reflexivity|]. split; [split; [exact Ep|exact (Hokv _ eq_refl)]|]. cbn [elements].
           destruct (falsy v) eqn:Ef.
           -- assert (is_none v = false) as Hn.
              { destruct (f_none_only F); [exact Etest|]. congruence. }
@@ -78,7 +78,7 @@ Section Algebra.
         assert (falsy v = true) as -> by (destruct (f_none_only F); [apply none_falsy|]; exact Etest).
         destruct right; reflexivity.
       + destruct (f_parse F (f_text F v)) as [p|] eqn:Ep.
-        * exists (Valid (f_text F v) p). split; [reflexivity|]. split; [split; assumption|]. cbn [elements].
+        * exists (Valid (f_text F v) p). split; [reflexivity|]. split; [split; [exact Ep|exact (Hokv _ eq_refl)]|]. cbn [elements].
           destruct (falsy v) eqn:Ef.
           -- assert (is_none v = false) as Hn.
              { destruct (f_none_only F); [exact Etest|]. congruence. }
@@ -99,15 +99,15 @@ Section Algebra.
       2:{ rewrite Hp. exists (Valid t p). split; [reflexivity|]. split; [split; assumption|].
           destruct right; [reflexivity|rewrite app_nil_r; reflexivity]. }
       destruct (f_empty_ok F && is_nil t) eqn:E2.
-      { exists (Valid (f_text F v) po). split; [reflexivity|]. split; [split; assumption|].
+      { exists (Valid (f_text F v) po). split; [reflexivity|]. split; [split; [exact Epo|exact (Hokv _ eq_refl)]|].
         apply guard_true in E2 as [Hn H0]. subst t.
         apply parse_nil_elems in Hp. subst p. cbn [elements].
         destruct right; [rewrite app_nil_r|]; reflexivity. }
       pose proof (guarded_nonempty _ _ E2 Hp) as Ht. pose proof (guarded_nonempty _ _ E1 Epo) as Ho.
       destruct right.
-      + destruct (Hjoin _ _ _ _ Hokv Hokt Epo Hp Ho Ht) as [Hj Hokj]. rewrite Hj.
+      + destruct (Hjoin _ _ _ _ (Hokv _ eq_refl) Hokt Epo Hp Ho Ht) as [Hj Hokj]. rewrite Hj.
         eexists. split; [reflexivity|]. split; [split; assumption|reflexivity].
-      + destruct (Hjoin _ _ _ _ Hokt Hokv Hp Epo Ht Ho) as [Hj Hokj]. rewrite Hj.
+      + destruct (Hjoin _ _ _ _ Hokt (Hokv _ eq_refl) Hp Epo Ht Ho) as [Hj Hokj]. rewrite Hj.
         eexists. split; [reflexivity|]. split; [split; assumption|reflexivity].
   Qed.
 
